@@ -16,13 +16,14 @@ import (
 // c10Abaco is a scripted Abaco stream: one channel group, fpp frames per packet, ppt packets per reader tick.
 type c10Abaco struct {
 	nchan, fpp, ppt int
+	chan0           int // channel offset in the packet header (= first channel number of the group)
 	sn              uint32
 	k               uint64
 	stopped         atomic.Bool
 }
 
 func (a *c10Abaco) packet() *packets.Packet {
-	pk := packets.NewPacket(10, 20, a.sn, 0)
+	pk := packets.NewPacket(10, 20, a.sn, a.chan0)
 	a.sn++
 	pk.SetTimestamp(&packets.PacketTimestamp{T: 1000 + a.k*uint64(a.fpp)*8, Rate: 1e6})
 	a.k++
